@@ -257,6 +257,55 @@ def objective_targets():
     return ts
 
 
+# ------------------------------------------------------------------------------------------ loss
+LOSS_H = 'specs/C18/loss2.h'
+LOSS_TU = 'src/loss.cpp'
+LTYPES = [(r'^nano::flatten_loss_t<|^nano::pinball_loss_t$|^nano::loss_t$', 'struct nv_loss')]
+LOSS_OUT = {'error': 'errors', 'value': 'values', 'vgrad': 'vgrads'}
+
+
+def loss_targets():
+    import re
+    ts = []
+
+    def common():
+        track = frame.make_track(lvalue_hooks=[frame.param_ref_hook()])
+        return dict(types=LTYPES, opaque=frame.ERASED, hooks=[frame.param_ref_hook(), track.expr_hook], stmt_hooks=[track.stmt_hook], uf_float=False,
+                    self_struct='struct nv_loss', calls=PURE,
+                    members=[(r'^(error|value|vgrad)\|nano::(pinball_)?loss_t \*\|#3', 'nv_loss_virtual({self}, {0}, {1}, {2})')])
+
+    def layout(tu, cls, flt, contracts):
+        lay = frame.Layout([dict(tu=tu, cls=cls, flt=flt, cname='struct nv_loss', bases=dict(CLONABLE, **{'nano::loss_t': (LOSS_TU, 'nano::loss_t')}))],
+                           types=LTYPES, base_tu=LOSS_TU)
+
+        def pre():
+            text, info = lay.text()
+            return f'#include "{astload.VERIF}/specs/C18/loss.h"\n' + text + contracts, info
+        return pre
+    # every instantiation of flatten_loss_t<...>::{error, value, vgrad} that src/loss.cpp registers, read from the AST
+    docs = astload.dump(LOSS_TU, 'flatten_loss_t')
+    seen = set()
+    for name in ('error', 'value', 'vgrad'):
+        for d in astload.find_definitions(docs, name):
+            m = re.search(r'flatten_loss_tINS_6detail\d+(\w+?)_tINS_4loss6detail\d+(\w+?)_tEEEE\d+' + name, d.get('mangledName') or '')
+            if not m or (m.group(0)) in seen:
+                continue
+            seen.add(m.group(0))
+            cname = f'loss_{m.group(1)}_{m.group(2)}_{name}'
+            f = Fn(cname, LOSS_TU, name, flt='flatten_loss_t', select=mg(m.group(0)), **common())
+            contracts = f'#define NV_CONTRACT_{cname} NV_LOSS_FRAME\n#define NV_LOOP_{cname}_1 NV_LOSS_LOOP({LOSS_OUT[name]})\n'
+            ts.append(T(cname, [f], LOSS_H, pre=layout(LOSS_TU, 'nano::flatten_loss_t', 'flatten_loss_t', contracts)))
+    PTU = 'src/loss/pinball.cpp'
+    for name in ('error', 'value', 'vgrad'):
+        cname = f'loss_pinball_{name}'
+        f = Fn(cname, PTU, name, flt='nano::pinball_loss_t', **common())
+        contracts = f'#define NV_CONTRACT_{cname} NV_LOSS_FRAME\n#define NV_LOOP_{cname}_1 NV_LOSS_LOOP({LOSS_OUT[name]})\n'
+        ts.append(T(cname, [f], LOSS_H, pre=layout(PTU, 'nano::pinball_loss_t', 'nano::pinball_loss_t', contracts), replace=['nv_loss_virtual']))
+        w = Fn(f'loss_wrap_{name}', LOSS_TU, name, flt='nano::loss_t', select=lambda d: len(astload.param_types(d)) == 3 and astload.param_types(d)[2].rstrip().endswith('&'), **common())
+        ts.append(T(f'loss_wrap_{name}', [w], LOSS_H, pre=layout(LOSS_TU, 'nano::loss_t', 'nano::loss_t', ''), replace=['nv_loss_virtual']))
+    return ts
+
+
 def build(tier):
-    targets = solver_targets() + iterator_targets() + objective_targets()
+    targets = solver_targets() + iterator_targets() + objective_targets() + loss_targets()
     return {'targets': targets, 'vcs': [], 'decided': [], 'not_decided': [], 'assumptions': [], 'trusted': []}
